@@ -59,7 +59,7 @@ class C01(core.Check):
     GEN = ['gen_funnel']
     PROPS = 'props/C01.v'
     MODEL_IMPORTS = ['gen.Gen_funnel', 'model.Funnel']
-    QUICK_CASES = 420
+    QUICK_CASES = 370
     THOROUGH_CASES = 8000
     PARTIAL = ('proved only for the exception funnel, float_safe/FloatErrorHandler, OS error translation, TIME$/DATE$/'
                'ENVIRON validation and the PEEK preset table (plus, in C10/C14/C20, string-pointer dereference and '
@@ -100,6 +100,9 @@ class C01(core.Check):
                       ['CHDIR "AB:X"'], ['FILES ":"'], ['OUT &H3C5,1'], ['OUT &H3CF,1'], ['PRINT &O1 2'],
                       ['SCREEN 1', 'VIEW (10,10)-(50,50)', 'SCREEN 1,,0,0'], ['KEY ON', 'LOCATE 1,60', 'WIDTH 40'],
                       ['SCREEN 1', 'VIEW (100,100)-(200,150)', 'PRINT POINT(300,10)'], ['SCREEN 1', 'DRAW "C256 U5"'],
+                      ['OPEN "NUL" FOR INPUT AS 1', 'PRINT LOF(1)'], ['OPEN "NUL" FOR RANDOM AS 1', 'GET#1'], ['OPEN "NUL" FOR INPUT AS 1', 'INPUT#1,A$'],
+                      ['OPEN "SCRN:" FOR RANDOM AS 1', 'INPUT#1,A$'], ['OPEN "SCRN:" FOR RANDOM AS 1', 'PUT#1'], ['BLOAD "NUL"'], ['BLOAD "KYBD:"'],
+                      ['SCREEN 1', 'DIM A%(0)', 'PUT (0,0),A%'],
                       ['OPEN "CON" FOR APPEND AS 1'], ['OPEN "R",1,"CON"'], ['OPEN "CON" FOR RANDOM AS 1 LEN=8', 'FIELD #1,2 AS A$', 'CLOSE'],
                       ['PRINT INP(&H379)'], ['OUT &H37A,1'], ['SCREEN 1', 'DEF SEG=0', 'PRINT PEEK(1126)'],
                       ['DEF SEG=&HF000', 'BSAVE "ROM.BIN",0,100', 'BLOAD "ROM.BIN"'], ['DEF SEG=&HB800', 'BSAVE "Y.BIN",65000,1000'],
@@ -259,6 +262,24 @@ class C01(core.Check):
                  for _ in range(rng.randrange(1, 4))]
         return prog + ['RUN'] + after
 
+    DEVS = ['NUL', 'CON', 'PRN', 'AUX', 'SCRN:', 'KYBD:', 'LPT1:', 'LPT2:', 'LPT3:', 'COM1:', 'COM2:', 'CAS1:', 'CAS1:X', 'C:DV', 'DV', '@:DV', 'A:DV', 'LPT1:X', 'SCRN:X']
+    DEVOPS = ['PRINT LOF(1);LOC(1);EOF(1)', 'PRINT#1,"x";1', 'WRITE#1,"y",2', 'INPUT#1,A$', 'LINE INPUT#1,B$', 'C$=INPUT$(1,#1)', 'GET#1', 'PUT#1', 'GET#1,2', 'PUT#1,2',
+              'FIELD #1,2 AS F$', 'LSET F$="ab"', 'WIDTH #1,40', 'LOCK #1', 'UNLOCK #1', 'PRINT#1,USING "##";3', 'CLOSE #1', 'PRINT LPOS(1);POS(0)', 'IOCTL #1,"x"',
+              'PRINT IOCTL$(1)', 'PRINT EOF(0)', 'PRINT LOF(0)', 'SEEK #1,1']
+    DEVFILE = ['BLOAD "%s"', 'BSAVE "%s",0,16', 'LOAD "%s"', 'SAVE "%s"', 'SAVE "%s",A', 'SAVE "%s",P', 'MERGE "%s"', 'CHAIN "%s"', 'RUN "%s"', 'KILL "%s"', 'NAME "%s" AS "Q"',
+               'FILES "%s"', 'LIST ,"%s"', 'OPEN "%s" FOR INPUT AS 2', 'MKDIR "%s"', 'CHDIR "%s"']
+
+    def devices(self):
+        """every file statement on every device in every open mode (D01k, D27c)"""
+        rng = self.rng
+        dev = rng.choice(self.DEVS)
+        mode = rng.choice(['FOR INPUT', 'FOR OUTPUT', 'FOR APPEND', 'FOR RANDOM', '', 'FOR RANDOM ACCESS READ', 'FOR INPUT SHARED'])
+        lines = ['10 PRINT 1'] if rng.random() < 0.3 else []
+        lines.append(rng.choice(['OPEN "%s" %s AS 1' % (dev, mode), 'OPEN "%s",1,"%s"' % (rng.choice('IOARX'), dev), 'OPEN "%s" %s AS 1 LEN=%d' % (dev, mode, rng.choice([1, 2, 128, 32767]))]))
+        for _ in range(rng.randrange(1, 6)):
+            lines.append(rng.choice(self.DEVOPS) if rng.random() < 0.75 else rng.choice(self.DEVFILE) % rng.choice(self.DEVS))
+        return lines + ['CLOSE']
+
     def tokfile(self):
         rng = self.rng
         import struct
@@ -305,13 +326,16 @@ class C01(core.Check):
                 out.append(rng.choice([{'k': 'he', 'e': e}, {'k': 'sio', 'err': rng.choice([57, 24, 25]), 'e': e},
                                        {'k': 'fs', 'dr': rng.randrange(2), 'con': rng.randrange(2), 'e': e}]))
                 hist['funnel'] += 1
-            elif r < 0.08:
+            elif r < 0.075:
                 out.append({'k': 'prog', 'lines': self.memwalk(), 'default': rng.random() < 0.5})
                 hist['memwalk'] = hist.get('memwalk', 0) + 1
             elif r < 0.1:
+                out.append({'k': 'prog', 'lines': self.devices(), 'default': rng.random() < 0.3})
+                hist['devices'] = hist.get('devices', 0) + 1
+            elif r < 0.125:
                 out.append({'k': 'prog', 'lines': self.lowmem(), 'default': rng.random() < 0.3})
                 hist['lowmem'] = hist.get('lowmem', 0) + 1
-            elif r < 0.14:
+            elif r < 0.155:
                 pre = rng.choice([[], self.scenario(), ['10 PRINT 1 +* 2', 'RUN'], ['10 PRINT 1', '20 GOTO 10'], [self.stmt()]])
                 out.append({'k': 'prog', 'lines': pre, 'keys': self.typed(), 'default': rng.random() < 0.5})
                 hist['interactive'] = hist.get('interactive', 0) + 1
